@@ -697,6 +697,16 @@ func (rn *c16Run) checkTurn(c *c16Cfg, cr *c16Role, idClass string, tBefore time
 
 // checkTurnP: prefix is put in front of the step part of keys ("history:<order>:" in the history stage).
 func (rn *c16Run) checkTurnP(c *c16Cfg, prefix string, cr *c16Role, idClass string, tBefore time.Time, obs map[string]any) {
+	rn.checkTurnK(c, prefix, "", cr, idClass, tBefore, obs, nil)
+}
+
+// checkTurnK: like checkTurnP; fixedStep (when not empty) replaces the step part of the
+// key that is otherwise derived from the peer-id class (the concurrent stage names the
+// schedule class, not the id class); others (may be nil) maps the peer ids of the other
+// clients that were connecting to the same server to a description, so that a mismatch
+// can say whose credentials were received. Returns true when every minted URL was
+// checked with a positive verdict (or TURN issuing is off).
+func (rn *c16Run) checkTurnK(c *c16Cfg, prefix, fixedStep string, cr *c16Role, idClass string, tBefore time.Time, obs map[string]any, others map[string]string) bool {
 	e := rn.e
 	ttl := time.Hour
 	if v, ok := c.flagValue("turn-cred-ttl"); ok {
@@ -707,7 +717,7 @@ func (rn *c16Run) checkTurnP(c *c16Cfg, prefix string, cr *c16Role, idClass stri
 	issuing := c.TurnMode == "on"
 	if !issuing {
 		// nothing to parse; make sure none is sent (diagnostic) and return
-		return
+		return true
 	}
 	env, how := cr.wait(c16TypeIs(protocol.TypeTurnCredentials), c16Watchdog)
 	tAfter := time.Now()
@@ -717,24 +727,28 @@ func (rn *c16Run) checkTurnP(c *c16Cfg, prefix string, cr *c16Role, idClass stri
 	} else if idClass != "plain-hex" {
 		keyStep += ":peer-id:" + idClass
 	}
+	if fixedStep != "" {
+		keyStep = fixedStep
+	}
 	keyStep = prefix + keyStep
+	allOK := true
 	if how != "ok" {
 		if how == "ended" {
 			rn.violate(c, keyStep, "TURN issuing is configured but the "+cr.role+" received no turn_credentials before the connection ended", map[string]any{"peer_id": cr.peerID})
 		} else {
 			e.R.Inconcl(fmt.Sprintf("%s %s: no turn_credentials within the watchdog", c.key(), keyStep))
 		}
-		return
+		return false
 	}
 	var creds protocol.TurnCredentials
 	if err := env.DecodePayload(&creds); err != nil {
 		rn.violate(c, keyStep, "turn_credentials payload does not decode with the client's type", map[string]any{"error": err.Error()})
-		return
+		return false
 	}
 	if len(creds.Servers) != len(c.Turn.Want) {
 		rn.violate(c, keyStep, fmt.Sprintf("server was given %d TURN URLs but minted %d", len(c.Turn.Want), len(creds.Servers)),
 			map[string]any{"servers": creds.Servers, "configured": c.Turn.Args})
-		return
+		return false
 	}
 	for i, raw := range creds.Servers {
 		want := c.Turn.Want[i]
@@ -750,6 +764,7 @@ func (rn *c16Run) checkTurnP(c *c16Cfg, prefix string, cr *c16Role, idClass stri
 		if err != nil {
 			det["error"] = err.Error()
 			rn.violate(c, keyStep, "the client's parseTurnServer rejects the URL the server minted", det)
+			allOK = false
 			continue
 		}
 		var bad []string
@@ -758,6 +773,10 @@ func (rn *c16Run) checkTurnP(c *c16Cfg, prefix string, cr *c16Role, idClass stri
 		lo, hi := tBefore.Add(ttl).Unix()-1, tAfter.Add(ttl).Unix()+1
 		if !found || perr != nil || rest != cr.peerID {
 			bad = append(bad, fmt.Sprintf("user %q is not <unix>:%q", p.Username, cr.peerID))
+			if who, ok := others[rest]; ok && found {
+				bad = append(bad, "the user names "+who+", which was connecting to the same server at the same time")
+				det["credentials_of"] = who
+			}
 		} else if unix < lo || unix > hi {
 			bad = append(bad, fmt.Sprintf("expiry %d outside the issuing window [%d,%d] (ttl %v)", unix, lo, hi, ttl))
 		}
@@ -784,13 +803,17 @@ func (rn *c16Run) checkTurnP(c *c16Cfg, prefix string, cr *c16Role, idClass stri
 		if len(bad) > 0 {
 			det["mismatch"] = bad
 			rn.violate(c, keyStep, "client-side parse of the minted TURN credentials differs from what the server intended: "+strings.Join(bad, "; "), det)
+			allOK = false
 			continue
 		}
 		e.R.Eval()
 		e.R.Distinct(c.key() + "|" + prefix + "parseTurnServer|" + c.Turn.Class + "|id:" + idClass + "|" + cr.role)
 		e.R.Count("turn_entries_checked")
 	}
-	obs["turn:"+cr.role] = "checked"
+	if obs != nil {
+		obs["turn:"+cr.role] = "checked"
+	}
+	return allOK
 }
 
 // c16RandID builds a seeded id of class k: hex runs joined/wrapped by the class's own special characters.
